@@ -43,6 +43,15 @@ func main() {
 			names = append(names, c.name)
 		}
 	}
+	if r.ObsMode() {
+		// engine K collects the observations of one process
+		byName := map[string]func(r *vlib.Run, g string){}
+		for _, c := range all {
+			byName[c.name] = c.run
+		}
+		r.Parallel(names, func(g string) { byName[g](r, g) })
+		r.Finish()
+	}
 	r.Parallel(names, func(g string) { r.RunShard(g, 0, nil) })
 	r.Finish()
 }
